@@ -374,6 +374,12 @@ def _hasattr(I, args, kw):
 @model('builtins.getattr')
 def _getattr(I, args, kw):
     obj, name = args[:2]
+    if obj is None or isinstance(obj, (int, float, bool)) and not is_sym(obj):
+        # None / plain numbers have none of the attributes the verified code asks for (dimensions, units, ...)
+        if isinstance(name, str) and not hasattr(obj, name):
+            if len(args) > 2:
+                return args[2]
+            raise PyExc('AttributeError', name)
     try:
         return I.getattr(obj, name)
     except PyExc as e:
